@@ -92,11 +92,16 @@ let answer line =
     let (r, n) = run_read (n_of_hex cached) (n_of_hex ts) (List.map ev (split_on ',' evs)) in
     id ^ "\t" ^ (match r with VisOk -> "ok" | VisAbortedByGC -> "gc" | VisPDTimeout -> "pdtimeout") ^ "\t" ^ string_of_int (int_of_nat n)
   | ["addkeys"; id; mc0; answers] ->
-    (* answers: L<mc>+<mc>... | M<commit> separated by ';' in delivery order *)
-    let parse a = if a.[0] = 'M' then RMissing (n_of_hex (String.sub a 1 (String.length a - 1)))
-      else RLocked (List.map n_of_hex (List.filter (fun x -> x <> "") (String.split_on_char '+' (String.sub a 1 (String.length a - 1))))) in
-    id ^ "\t" ^ (match check_all_secondaries (n_of_hex mc0) (List.map parse (split_on ';' answers)) with
-                 | Some c -> "ok\t" ^ hex_of_n c | None -> "error")
+    (* answers: L<mc>+<mc>...[!] | M<commit> separated by ';' in delivery order; '!' = the answer holds a lock that is not async-commit *)
+    let parse a =
+      if a.[0] = 'M' then (RMissing (n_of_hex (String.sub a 1 (String.length a - 1))), false)
+      else begin
+        let na = String.length a > 1 && a.[String.length a - 1] = '!' in
+        let body = String.sub a 1 (String.length a - 1 - (if na then 1 else 0)) in
+        (RLocked (List.map n_of_hex (List.filter (fun x -> x <> "") (String.split_on_char '+' body))), na) end in
+    id ^ "\t" ^ (match check_all_secondaries_f (n_of_hex mc0) (List.map parse (split_on ';' answers)) with
+                 | CasDecided c -> "ok\t" ^ hex_of_n c | CasFallback -> "fallback" | CasError -> "error")
+  | ["gcsp"; id; expected; granted] -> id ^ "\t" ^ hex_of_n (gc_safe_point (n_of_hex expected) (n_of_hex granted))
   | ["outcomes"; id; st] ->
     (* for every lock: key@start=outcome of its transaction (committed_at at its primary; N = rolled back) *)
     let st = parse_store st in
